@@ -71,12 +71,15 @@ SYS = {
 # actions are "kinds" = one of each kind in the fixed order edit, taint, break, drop blob, perturb, platform, relocate, or
 # "sink" = increasing in (kind, target), edits only of the last target, perturbations only deletions. depth 0 = not in that tier.
 CANON = {
- "C15": [("pair minimal (two outputs; a bin_output only): edit of the sink, dropped blobs, deleted outputs", "pair", ["EditInput", "Build", "DropBlob", "Perturb"], ["copy"], ["minimal"], ["ALL"], "sink", 5, 6, False),
+ "C15": [("diamond minimal, fan-out: both middle targets edited, the shared dependency's blob dropped and its output deleted (x6 runs, 2-4 workers)", "diamond", ["EditInput", "Build", "DropBlob", "Perturb"], ["copy"], ["minimal"], ["ALL"], "fan*6", 6, 6, False),
+         ("diamond minimal, fan-out, three actions", "diamond", ["EditInput", "Build", "DropBlob", "Perturb"], ["copy"], ["minimal"], ["ALL"], "fan*6", 5, 5, False),
+         ("pair minimal (two outputs; a bin_output only): edit of the sink, dropped blobs, deleted outputs", "pair", ["EditInput", "Build", "DropBlob", "Perturb"], ["copy"], ["minimal"], ["ALL"], "sink", 5, 6, False),
          ("diamond minimal: edit of the sink, dropped blobs, deleted outputs", "diamond", ["EditInput", "Build", "DropBlob", "Perturb"], ["copy"], ["minimal"], ["ALL"], "sink", 6, 7, False),
          ("alias minimal: edit of the sink, dropped blobs, deleted outputs", "alias", ["EditInput", "Build", "DropBlob", "Perturb"], ["copy"], ["minimal"], ["ALL"], "sink", 0, 6, False),
          ("diamond minimal: edit, dropped blob, perturbation", "diamond", ["EditInput", "Build", "DropBlob", "Perturb"], ["copy"], ["minimal"], ["ALL"], "kinds", 0, 5, False),
          ("alias minimal: edit, dropped blob, perturbation", "alias", ["EditInput", "Build", "DropBlob", "Perturb"], ["copy"], ["minimal"], ["ALL", "c"], "kinds", 0, 5, False)],
- "C04": [("diamond minimal: edit of the sink, unreadable results, dropped blobs, deleted outputs", "diamond", ["EditInput", "Build", "CorruptResults", "DropBlob", "Perturb"], ["copy"], ["minimal"], ["ALL"], "sink", 6, 7, False),
+ "C04": [("diamond minimal, fan-out: both middle targets edited, the shared dependency's blob dropped and its output deleted (x6 runs, 2-4 workers)", "diamond", ["EditInput", "Build", "DropBlob", "Perturb"], ["copy"], ["minimal"], ["ALL"], "fan*6", 6, 6, False),
+         ("diamond minimal: edit of the sink, unreadable results, dropped blobs, deleted outputs", "diamond", ["EditInput", "Build", "CorruptResults", "DropBlob", "Perturb"], ["copy"], ["minimal"], ["ALL"], "sink", 6, 7, False),
          ("diamond all: edit of the sink, unreadable results, dropped blobs, deleted outputs", "diamond", ["EditInput", "Build", "CorruptResults", "DropBlob", "Perturb"], ["copy"], ["all"], ["ALL"], "sink", 5, 6, False)],
  "C02": [("diamond: edit, dropped blob, perturbation, relocation", "diamond", ["EditInput", "Build", "DropBlob", "Perturb", "Relocate"], ["copy"], ["all"], ["ALL"], "kinds", 0, 6, False),
          ("diamond: edit of the sink, dropped blobs, deleted outputs", "diamond", ["EditInput", "Build", "DropBlob", "Perturb"], ["copy"], ["all"], ["ALL"], "sink", 0, 6, False)],
@@ -90,11 +93,16 @@ PAIR_T = ["EditInput", "EditSwap", "EditCmd", "Build", "ToggleNoCache", "Taint"]
 # completion orders of the two output digests (the second run delays the first output's digest in every other build: schedules the
 # pool may produce).
 # (label, template, quick (acts, shape), thorough [(acts, shape), ...], commands, modes, selections, literal clean build)
+TOOL = ("chain: a tainted target whose forced run leaves its declared output out (broken undeclared tool, same cache key) keeps its taint and is attempted again",
+        "chain", (["Build", "Taint", "BreakTool"], "BAABB:kinds:nodelay"), [(["Build", "Taint", "BreakTool", "EditInput"], "BAAABB:kinds:nodelay")], ["copy"], ["all"], ["ALL"], False)
 SHAPES = {
+ "C05": [TOOL],
  "C01": [("pair: literally declared inputs that disappear and reappear under the other name", "pair", None, [(["EditInput", "EditAbsent", "Build"], "BAABAAB:first:nodelay")], ["copy"], ["all"], ["ALL"], False),
          ("pair: two outputs exchanged / no-cache / taint", "pair", (PAIR_Q, "BABAB"), [(PAIR_T, "BABAB"), (PAIR_Q, "BAABAB")], ["copy", "const"], ["all"], ["ALL"], True)],
  "C02": [("pair: two outputs exchanged / no-cache / taint", "pair", (PAIR_Q, "BABAB"), [(PAIR_T, "BABAB"), (PAIR_Q, "BAABAB")], ["copy", "const"], ["all"], ["ALL"], False)],
- "C13": [("pair: two outputs exchanged / no-cache / taint", "pair", (PAIR_Q, "BABAB"), [(PAIR_T + ["BuildCacheOff"], "BABAB"), (PAIR_Q, "BAABAB")], ["copy", "const"], ["all"], ["ALL"], False)],
+ "C13": [TOOL, ("check targets: a tainted target whose forced run fails its check keeps its taint", "check", (["EditCmd", "Build", "Taint", "BreakExt"], "BABAAB:kinds:nodelay"),
+          [(["EditCmd", "Build", "Taint", "BreakExt"], "BABAAB:kinds:nodelay")], ["copy", "noest"], ["all"], ["ALL"], False),
+         ("pair: two outputs exchanged / no-cache / taint", "pair", (PAIR_Q, "BABAB"), [(PAIR_T + ["BuildCacheOff"], "BABAB"), (PAIR_Q, "BAABAB")], ["copy", "const"], ["all"], ["ALL"], False)],
  "C15": [("pair minimal: two outputs exchanged / no-cache / taint", "pair", (PAIR_Q, "BABAB"), [(PAIR_T, "BABAB"), (PAIR_Q, "BAABAB")], ["copy", "const"], ["minimal"], ["ALL"], False)],
 }
 
@@ -126,8 +134,15 @@ def run(chk, tmp, prop):
     for j, (label, template, acts, cmds, modes, sels, style, dq, dt, lit) in enumerate(CANON.get(prop, [])):
         if (dq if quick else dt) == 0:
             continue
+        style, _, reps = style.partition("*")
         res, hs = be.generate(tmp, f"c{j}", template, acts, cmds, modes, sels, dq if quick else dt, 0, chk.seed, systematic=True, canonical=style)
         chk.add_tlc(f"GrogBuildGen canonical/{style} (full build; {(dq if quick else dt) - 2} actions; build): {label}", res, histories=len(hs))
+        if reps:      # schedule-dependent shapes: every history several times, with 2, 3 and 4 workers
+            hs = [h for h in hs for _ in range(int(reps))]
+            # (every other run holds the per-target output lock for 40 ms while the outputs are being loaded: the other dependant queues up)
+            be.run_histories(chk, tmp, grog, hs, prop, lit, "canonical " + label,
+                             opts_of=lambda i: {"workers": 2 + i % 3, "hash": ["", "sha256"][i % 2], "delay": "outload=40" if i % 2 else ""})
+            continue
         be.run_histories(chk, tmp, grog, hs, prop, lit, "canonical " + label)
     for j, (label, template, qs, ts, cmds, modes, sels, lit) in enumerate(SHAPES.get(prop, [])):
         for jj, (acts, shape) in enumerate(([qs] if qs else []) if quick else ts):
